@@ -23,6 +23,14 @@ RULE = ("real Graphs (adj/rev filled as edge_loader.rs does, every 25th random c
         "graphs of all the random kinds, <=14 vertices) written to edges.csv/vertices.csv with a distance column drawn from "
         "{0.0, 1e-9, 0.01, 1.0, 123.456} and read back through Graph::from_files, judged like every other case by check_scc on the "
         "EDGE LIST of the file (not on the loaded adjacency): connectivity must not depend on the length of an edge. "
+        "The loaded cases also pass explicit n_edges hints to Graph::from_files (exact, larger, smaller by one, half, 0, none): the "
+        "unchanged loader uses the hint only for its progress bar, every row of the file must be loaded whatever the hint. "
+        "Family sequence (34 cases quick, 304 thorough): 2-4 analyses in a row on ONE fresh thread (all_strongly_connected_componenets "
+        "then largest_strongly_connected_component per step), usually with a failing step first or in the middle (a Graph value "
+        "whose adjacency names an edge id missing from the edge table, or an edge list file whose ids are numbered from 1: loads, "
+        "then EdgeNotFound), then valid graphs over overlapping vertex ids; I / M / S join the per-step payloads, every valid step "
+        "judged by check_scc/check_largest for its own graph, a failing step specified as Err EdgeNotFound: no state may survive a "
+        "call, successful or not. "
         "Other families: I = canonical components + largest of all_strongly_connected_componenets / largest_strongly_connected_component, "
         "M = the same from the Coq model, S = verified checker check_scc/check_largest on the implementation's raw output; "
         "non-trivial = at least one component of size >=2 and at least 2 components; distinct by (n, edge list)")
